@@ -304,6 +304,12 @@ func ExecWrite(e *engine.EngineFacade, o Op) ExecResult {
 					res.Err = fmt.Errorf("tx delete: %w", err)
 					return res
 				}
+			case "scan":
+				it := tx.NewIterator()
+				n := 0
+				for it.SeekToFirst(); it.Valid() && n < 100000; it.Next() {
+					n++
+				}
 			case "get":
 				v, err := tx.Get(s.Key)
 				if err == nil {
